@@ -1191,6 +1191,31 @@ fn run_presize_forms(v: &[u64]) {
             let otup: Vec<Option<([u8; 2], String)>> = vec![None, Some(([1, 2], "hello world".into())), Some(([3, 4], String::new())), Some(([5, 6], "é𝄞".into()))];
             form_case::<OptionRegion<TupleABRegion<OwnedRegion<u8>, StringRegion>>>(v, |r, k| { let _ = r.push(&otup[k]); }, |r, b| r.reserve_items(b.iter().map(|k| &otup[*k])))
         }
+        31 => form_case::<SliceRegion<Vec<u8>>>(v, |r, k| { let _ = r.push(&ARR[k]); }, |r, b| r.reserve_items(b.iter().map(|k| &ARR[*k]))),
+        32 => {
+            // announcements above 64 KiB per storage (construction through merge_regions / merge_capacity)
+            let n = 2500 * (v[4] as usize + 1);
+            let mut src = <OwnedRegion<u64>>::default();
+            let block: Vec<u64> = (0..n as u64).collect();
+            let _ = src.push(block.as_slice());
+            let mut m = <OwnedRegion<u64>>::merge_regions([&src, &src].into_iter());
+            let before = caps(&m);
+            for _ in 0..2 {
+                let _ = m.push(block.as_slice());
+                vassert!(caps(&m) == before, "VF:presize.forms.capacity_changed_while_absorbing_announced_items");
+            }
+            let mut fs = FlatStack::<OwnedRegion<u8>>::default();
+            for i in 0..(n * 2) {
+                fs.copy([i as u8].as_slice());
+            }
+            let mut fm = FlatStack::<OwnedRegion<u8>>::merge_capacity(std::iter::once(&fs));
+            let fcaps = |fs: &FlatStack<OwnedRegion<u8>>| -> Vec<usize> { collect_heap(|cb| fs.heap_size(cb)).iter().map(|p| p.1).collect() };
+            let before = fcaps(&fm);
+            for i in 0..(n * 2) {
+                fm.copy([i as u8].as_slice());
+            }
+            vassert!(fcaps(&fm) == before, "VF:presize.forms.capacity_changed_while_absorbing_announced_items");
+        }
         _ => {
             // through FlatStack::reserve_items, announced by an iterator without an exact size (a filter that keeps everything)
             let batch: Vec<usize> = v[1..4].iter().take(v[4] as usize).map(|k| *k as usize).collect();
@@ -1210,10 +1235,10 @@ fn run_presize_forms(v: &[u64]) {
     }
 }
 fn pre_presize_forms(v: &[u64]) -> bool {
-    v[0] < 31 && v[1] < 4 && v[2] < 4 && v[3] < 4 && v[4] < 4 && v[5] < 5
+    v[0] < 34 && (v[0] != 32 || (v[1] == 0 && v[2] == 0 && v[3] == 0 && v[5] == 0)) && v[1] < 4 && v[2] < 4 && v[3] < 4 && v[4] < 4 && v[5] < 5
 }
 fn doms_presize_forms() -> Vec<Vec<u64>> {
-    vec![range(31), range(4), range(4), range(4), range(4), range(5)]
+    vec![range(34), range(4), range(4), range(4), range(4), range(5)]
 }
 
 // C17 clause 2 over further input forms and non-coded compositions (the iterator / array / reference-to-reference forms
@@ -1330,7 +1355,7 @@ pub fn harnesses_alloc() -> Vec<H> {
     vec![H { name: "heap_big_clear", props: &["C18"], nargs: 3, pre: pre_big_clear, doms: doms_big_clear, run: run_big_clear, panic_ok: false,
         bound: "17 compositions; 300 / 1100 / 2100 / 4200 pushes alternating two pool values, then clear: same number of (used, capacity) pairs, no capacity smaller than before", kani: false },
     H { name: "presize_forms", props: &["C17"], nargs: 6, pre: pre_presize_forms, doms: doms_presize_forms, run: run_presize_forms, panic_ok: false,
-        bound: "31 (region, ReserveItems form) pairs (incl. strings and tuples announced through an enclosing slice / option / result region, and FlatStack::reserve_items fed by a filtered iterator) (six of them announced by reference and pushed in the owned Vec / array / String form, two with owned vectors that carry spare capacity): OwnedRegion (&[T;N], &[T], &Vec<T>, PushIter), StringRegion (&String, &str, &&str), SliceRegion<OwnedRegion> (&[T], &Vec<T>, &[T;N], read items), OptionRegion / ResultRegion / tuple (owned and by reference), Vec<T>, SliceRegion<MirrorRegion>; batch of 0..3 items from a pool of 4; target empty / one item / filled until 0..2 spare bytes; reserve_items(batch) then pushing the batch in the same form: every capacity constant", kani: false },
+        bound: "33 (region, ReserveItems form) pairs (incl. Vec<T> inside a slice region, and merge_regions / merge_capacity announcing 40..160 KiB per storage) (incl. strings and tuples announced through an enclosing slice / option / result region, and FlatStack::reserve_items fed by a filtered iterator) (six of them announced by reference and pushed in the owned Vec / array / String form, two with owned vectors that carry spare capacity): OwnedRegion (&[T;N], &[T], &Vec<T>, PushIter), StringRegion (&String, &str, &&str), SliceRegion<OwnedRegion> (&[T], &Vec<T>, &[T;N], read items), OptionRegion / ResultRegion / tuple (owned and by reference), Vec<T>, SliceRegion<MirrorRegion>; batch of 0..3 items from a pool of 4; target empty / one item / filled until 0..2 spare bytes; reserve_items(batch) then pushing the batch in the same form: every capacity constant", kani: false },
     H { name: "alloc_forms", props: &["C17"], nargs: 2, pre: pre_alloc_forms, doms: doms_alloc_forms, run: run_alloc_forms, panic_ok: false,
         bound: "23 (composition, input form) pairs beyond the slice form (incl. read items of another slice / columns region and of a FlatStack replayed): OwnedRegion via [T;N], &[T;N], &&[T;N], PushIter, &&[T]; SliceRegion via arrays; StringRegion via &&str; ColumnsRegion (mirror and string columns) via slice / array / PushIter rows; ConsecutiveIndexPairs, CollapseSequence, FlatStack (Vec and IndexOptimized offsets), SliceRegion over consecutive pairs; n = 2^6 .. 2^14 pushes without pre-sizing: at most storages x (log2(elements)+2) allocator calls", kani: false },
     H { name: "alloc_discipline", props: &["C17"], nargs: 6, pre: pre_alloc, doms: doms_alloc, run: run_alloc, panic_ok: false,
